@@ -335,6 +335,21 @@ func checkBuildOrder(c *fw.Ctx) {
 		{"CheckFields", fw.NameIs("gmsl.CheckFields")},
 	}
 	succ := fw.ErrNilSuccess(fn, fw.ErrIndex(fn), fw.IsTail(fw.NameIs("gmsl.CheckFields")))
+	// stages run from inside one loop (a `for stage := 0; err == nil; stage++ { switch stage {…} }`
+	// state machine) are ordered by the values of the loop variable, which the CFG does not show
+	looped := 0
+	for _, st := range stages[1:5] {
+		for _, call := range fw.CallsTo(fn, false, st.match) {
+			if blockInLoop(call.Block()) {
+				looped++
+			}
+		}
+	}
+	if looped >= 2 {
+		c.Undecided(rule, "Build: stage order and data flow", fmt.Sprintf("%d stage calls sit inside a loop: their order is decided by the loop variable", looped))
+		checkBuildFormats2(c, fn)
+		return
+	}
 	for i, st := range stages {
 		c.CheckGate(rule, fn, "(*EventBuilder).Build", fw.GuardCallErrNil(st.name, st.match), succ)
 		if i > 0 {
@@ -361,6 +376,10 @@ func checkBuildOrder(c *fw.Ctx) {
 			if src == nil {
 				continue
 			}
+			if len(fw.CallsTo(fn, false, stages[i-1].match)) == 0 {
+				c.Undecided(rule, "Build: "+stages[i].name+" consumes the output of "+stages[i-1].name, "no static call of "+stages[i-1].name+" in Build itself (the stage runs under another name)")
+				continue
+			}
 			c.CheckDerives(src, nil, fw.FlowSpec{IsSource: fw.IsResultOf(stages[i-1].match, 0), Through: fw.ThroughNames(map[string][]int{"github.com/tidwall/sjson.DeleteBytes": {0}}), All: true}, rule, "Build: "+stages[i].name+" consumes the output of "+stages[i-1].name, c.P.Pos(call.Pos()), "", "its input is "+fw.Sig(src))
 		}
 	}
@@ -383,13 +402,17 @@ func checkBuildFormats2(c *fw.Ctx, fn *ssa.Function) {
 		}
 		n++
 		conds := condsOf(call.Block())
-		ok := containsAll(conds, ".EventFormat(", " == 2)") && !strings.Contains(conds, "EventIDFormat(")
+		ok := strings.Contains(conds, ".EventFormat(") && eventFormat2Guard(conds) && !strings.Contains(conds, "EventIDFormat(")
+		if !ok && blockInLoop(call.Block()) {
+			c.Undecided(rule, "Build drops the placeholder event_id exactly for event format 2", "the deletion sits in a loop over build stages; its guard was not read")
+			continue
+		}
 		c.Check(ok, rule, "Build drops the placeholder event_id exactly for event format 2", c.P.Pos(call.Pos()), conds, "event_id is deleted when ["+conds+"]; it must be deleted iff eventFormat == EventFormatV2 (every format-2 version hashes the event without event_id)")
 	}
 	c.Min(rule+" event_id deletion", n, 1)
 	for _, st := range fw.FieldStores(fn, "", "EventID") {
 		conds := condsOf(st.Block())
-		ok := containsAll(conds, ".EventIDFormat(", " == 1)")
+		ok := containsAll(conds, ".EventIDFormat(", " == 1)") || containsAll(conds, "(1 == ", ".EventIDFormat(")
 		c.Check(ok, rule, "Build generates an event_id only for ID format 1", c.P.Pos(fw.InstrPos(st)), conds, "event_id is generated when ["+conds+"]")
 	}
 }
